@@ -7,6 +7,7 @@ import (
 	"errors"
 	"fmt"
 	"os"
+	"runtime"
 	"strings"
 	"time"
 
@@ -121,6 +122,9 @@ func CrashStateHash(cat *lungo.Catalog) string {
 // CrashChildMain is the body of cmd/crashchild: apply the program on a file
 // store and journal progress on stdout (unbuffered).
 func CrashChildMain(args []string) int {
+	// strace counts the ordinal of an injected syscall per thread: keep every
+	// file syscall of the history on the main thread
+	runtime.LockOSThread()
 	if len(args) != 2 {
 		fmt.Fprintln(os.Stderr, "usage: crashchild <store file> <program.json>")
 		return 2
